@@ -84,8 +84,22 @@ def Ux(x=5) -> int:
     return 7
 
 
+@as_function_node("r0", "r1", validate_output_labels=False)
+def Mpq(p=3, q=4):
+    """a function node with the interface of the macros below"""
+    return ("Mpq0", p, q), ("Mpq1", p, q)
+
+
+@as_macro_node("r0", "r1", validate_output_labels=False)
+def MacIn(self, p=3, q=4):
+    """a fixed two-node macro (depth 2 when it is the child of a workflow): p -> a.x, q -> b.x, a.o -> b.y"""
+    self.a = Pxy(x=p)
+    self.b = Pxy(x=q, y=self.a)
+    return self.a, self.b
+
+
 CLASSES = {
-    c.__name__: c for c in (Pxy, Qxy, Px, Pxyz, PxyP, PxyOP, Ixy, Sxy, IxyS, SxIy, Ux)
+    c.__name__: c for c in (Pxy, Qxy, Px, Pxyz, PxyP, PxyOP, Ixy, Sxy, IxyS, SxIy, Ux, Mpq, MacIn)
 }
 
 # label of the channels per class (inputs, outputs) and their hints -- used by the generator only
@@ -101,6 +115,8 @@ SHAPE = {
     "IxyS": (["x", "y"], ["o"]),
     "SxIy": (["x", "y"], ["o"]),
     "Ux": (["x"], ["o"]),
+    "Mpq": (["p", "q"], ["r0", "r1"]),
+    "MacIn": (["p", "q"], ["r0", "r1"]),
 }
 TYPED = {"Ixy", "Sxy", "IxyS", "SxIy", "Ux"}
 
